@@ -10,6 +10,7 @@ package c08
 
 import (
 	"bytes"
+	"math/bits"
 	"sync"
 	"encoding/hex"
 	"fmt"
@@ -95,9 +96,9 @@ func admissionBody(insts []*niInst) func(*engine.X) {
 			err := n.compileErr(c)
 			// documented: Fiat-Shamir and randomised Fischlin refuse a protocol whose soundness error is below the
 			// computational security parameter (128); Fischlin derives (rho, b, t) and refuses only invalid ones.
-			wantRefuse := false
-			if c != fischlin.Name {
-				wantRefuse = n.soundnessError < 128
+			wantRefuse := n.soundnessError < 128
+			if c == fischlin.Name {
+				wantRefuse = fischlinRefuses(n)
 			}
 			if wantRefuse && err == nil {
 				x.Failf("admission/"+compShort(c)+"/admitted", "%s: %s compiler admitted a protocol with soundness error 2^-%d", n.name, c, n.soundnessError)
@@ -108,6 +109,22 @@ func admissionBody(insts []*niInst) func(*engine.X) {
 			x.Observe(n.name, " ", c, " admitted=", err == nil)
 		}
 	}
+}
+
+// fischlinRefuses evaluates the Fischlin compiler's documented parameter rule (fischlin.go / params.go): rho by
+// protocol name (32 for the Paillier n-th root protocol, 16 otherwise), b = ceil(128/rho) + ceil(log2(s-1)) for
+// special soundness s, t = b+5 (b+6 when rho > 64); refused iff rho < 2, b < 2 or t >= 64.
+func fischlinRefuses(n *niInst) bool {
+	rho := 16
+	if n.sigName == "PAILLIER_NTH_ROOTS" {
+		rho = 32
+	}
+	b := (128+rho-1)/rho + bits.Len64(uint64(int(n.specialSoundness)-1)-1) // ceil(log2(s-1)), as mathutils.CeilLog2
+	t := b + 5
+	if rho > 64 {
+		t = b + 6
+	}
+	return rho < 2 || b < 2 || t >= 64
 }
 
 // refusalBody: documented constructor refusals.
@@ -221,7 +238,7 @@ type cfg struct {
 	n        *niInst
 	c        compiler.Name
 	mode     bitMode
-	restrict bool
+	restrict idxAlphabet
 	light    bool // quick tier, Fischlin-type compilers: only the context pairs that need at most one extra proof
 }
 
@@ -463,6 +480,17 @@ var planOnce = sync.OnceValue(func() *plan {
 
 func buildPlan() *plan { return planOnce() }
 
+// heavyInsts: the Paillier-based protocols with fixed test keys (plain composition).
+var heavyOnce = sync.OnceValue(func() []*niInst {
+	return []*niInst{
+		nthrootCase(1024).ni(), rangeCase(1024).ni(), prmCase(512).ni(),
+		encCase(1024).ni(), encelgCase(1024).ni(), facCase(1024).ni(), blummodCase(1024).ni(),
+		affgCase(2048).ni(), affgstarCase(2048).ni(), decCase(2048).ni(),
+	}
+})
+
+func heavyInsts() []*niInst { return heavyOnce() }
+
 func TestCheck(t *testing.T) {
 	engine.Rule("protocol x composition {plain, AND2, AND3, OR-left, OR-right} x compiler {Fiat-Shamir, Fischlin, randomised Fischlin} x group; per configuration one honest proof (fixed deterministic randomness) and then EVERY listed single edit: 19 prover/verifier context pairs, replay, other protocol name, other compiler, each statement component replaced, other instance; every CBOR-tree edit of the proof bytes (every bit of every leaf <= 64 B, else LSB/middle/MSB; key/tag edits; leaf swaps; drop/duplicate/blank of every component; array truncate/extend; re-wraps; splice of the same leaf from another valid proof). A case is distinct by (configuration, edit description); non-trivial = Verify was called on bytes different from the original. Sigma level: 4 challenges {0,1,ff..ff,pattern} on one commitment, all 12 ordered pairs through the extractor, 4 simulator runs. Interactive compiler: honest run + every bit of the raw messages + every CBOR edit of the structured messages.")
 	engine.Assume("the proof randomness is one fixed deterministic stream per configuration (errgroup workers may interleave reads, so proof bytes can differ between processes; oracles never compare proof bytes across runs)",
@@ -491,7 +519,7 @@ func TestCheck(t *testing.T) {
 					}
 					// quick: the 16-fold repeated Fischlin proofs use the index alphabet {0,1,mid,last-1,last} on the
 					// repetition arrays and the leaf-level bit alphabet (every bit for plain Schnorr/k256)
-					cf.restrict, cf.light = true, true
+					cf.restrict, cf.light = idx5, true
 					if n.name != "schnorr/k256" {
 						cf.mode = bitsLeaf
 					}
